@@ -823,6 +823,19 @@ def literal_arguments_are_per_evaluation(col):
             _scribble(t_glom.__dict__['a'])
 
 
+class _CallableDict(dict):
+    """a target that is itself callable (a handler table with a default action)"""
+    def __call__(self, *a, **kw):
+        return ('THE TARGET WAS CALLED', a, kw)
+
+
+class _HookHolder:
+    hook = None
+
+    def __call__(self, *a, **kw):
+        return ('THE HOLDER WAS CALLED', a, kw)
+
+
 def values_that_are_specs_are_data(col):
     """"a T or Spec appearing as an index or call argument is first evaluated against the original target": the VALUE that evaluation
     yields is what the operation gets - also when that value is itself a T expression, a Spec, a Val or a container holding one (a
@@ -830,8 +843,8 @@ def values_that_are_specs_are_data(col):
     from glom import Spec, Val
     collect = lambda *a, **k: (a, k)
     stored_t, stored_spec, stored_val = T['w'], Spec('w'), Val(3)
-    mk = lambda: {'f': collect, 'w': 'WVAL', 'vt': stored_t, 'vs': stored_spec, 'vv': stored_val, 'lst': [stored_t], 'dct': {'k': stored_t},
-                  'tbl': {stored_t: 'keyed by a T object'}}
+    mk = lambda: _CallableDict({'hook': None, 'holder': _HookHolder(), 'f': collect, 'w': 'WVAL', 'vt': stored_t, 'vs': stored_spec, 'vv': stored_val, 'lst': [stored_t], 'dct': {'k': stored_t},
+                  'tbl': {stored_t: 'keyed by a T object'}})
     cases = [
         ('call positional <- stored T', lambda: T['f'](T['vt']), lambda t: t['f'](t['vt'])),
         ('call keyword <- stored T', lambda: T['f'](k=T['vt']), lambda t: t['f'](k=t['vt'])),
@@ -845,6 +858,13 @@ def values_that_are_specs_are_data(col):
         ('index <- stored T used as key', lambda: T['tbl'][T['vt']], lambda t: t['tbl'][t['vt']]),
         ('method call <- stored T', lambda: T['lst'].index(T['vt']), lambda t: t['lst'].index(t['vt'])),
         ('dict.get default <- stored T', lambda: T['dct'].get('zz', T['vt']), lambda t: t['dct'].get('zz', t['vt'])),
+        # ... and the value that is CALLED is data as well: calling None is an error (it does not mean "call the target"), calling
+        # a stored T records a call step (as calling any T does), a stored Spec cannot be called
+        ('callee is None, the target is callable', lambda: T['hook'](), lambda t: t['hook']()),
+        ('callee attribute is None', lambda: T['holder'].hook(1), lambda t: t['holder'].hook(1)),
+        ('callee is a stored T', lambda: T['vt']('abc'), lambda t: t['vt']('abc')),
+        ('callee is a stored Spec', lambda: T['vs']('abc'), lambda t: t['vs']('abc')),
+        ('callee is a stored Val', lambda: T['vv'](), lambda t: t['vv']()),
     ]
     for desc, mk_spec, py in cases:
         t = mk()
@@ -853,7 +873,10 @@ def values_that_are_specs_are_data(col):
         col.case(('stored-specs-are-data', desc), True)
         col.count('glom_evaluations')
         col.count('arguments_whose_value_is_a_spec_object')
-        ok = got.ok == want.ok and (not got.ok or _same_deep(got.value, want.value))
+        ok = got.ok == want.ok and (not got.ok or _same_deep(got.value, want.value) or
+                                    (type(want.value) is type(T) and type(got.value) is type(T) and repr(got.value) == repr(want.value)))
+        if not want.ok and not got.ok and 'callee' in desc and not isinstance(got.exc, type(want.exc)):
+            ok = False
         if not ok:
             col.violation('C02/argument-value-evaluated-again:' + desc.split(' <-')[0].replace(' ', '-'),
                           '%s: glom gives %r, the same operations applied directly give %r' % (desc, got, want), None)
